@@ -118,6 +118,16 @@ def run(res):
                         cases.append((pre + ".dseg\n.byte %d\n" % (rsize + delta), exp, name, "ram/reserve-after-" + other.split()[0]))
                     if eep + delta >= 1:
                         cases.append((pre + ".eseg\n.byte %d\n" % (eep + delta), exp, name, "eeprom/reserve-after-" + other.split()[0]))
+        # a label costs nothing: behind the last unit of a memory that is exactly full it is still a label
+        if rsize >= 1:
+            cases.append((head + ".dseg\nbuf: .byte %d\nbuf_end:\n.cseg\n .dw buf_end\n" % rsize, "OK", name, "ram/label-at-end"))
+        else:
+            cases.append((head + ".dseg\nnothing:\n.cseg\n nop\n", "OK", name, "ram/label-at-end"))
+        if eep >= 1:
+            cases.append((head + ".eseg\n.byte %d\ne_end:\n.cseg\n nop\n" % eep, "OK", name, "eeprom/label-at-end"))
+        else:
+            cases.append((head + ".eseg\ne_nothing:\n.cseg\n nop\n", "OK", name, "eeprom/label-at-end"))
+        cases.append((head + ".org %d\n nop\nflash_end:\n" % (flash - 1), "OK", name, "flash/label-at-end"))
         # usage is the extent: an .org back over what is already used is refused, in every memory (it cannot "free" anything)
         if rsize >= 4:
             cases.append((head + ".dseg\nbig: .byte %d\n.org %d\nsmall: .byte 1\n" % (rsize, rstart), "ERR", name, "ram/org-backwards"))
